@@ -311,7 +311,7 @@ def classify_exc(e):
 # ---------------------------------------------------------------- the plug-in
 class C06(Prop):
     id = 'C06'
-    budgets = {'quick': 6000, 'thorough': 120000}
+    budgets = {'quick': 50000, 'thorough': 900000}
     time_limit = {'quick': 40, 'thorough': 540}
     rule = ('value-directed random matcher expressions (depth 0-4) over all stock matchers of testtools.matchers.__all__ x matchees '
             'from ints, strs, bytes, None, lists, dicts, objects with attributes, exc_info tuples, callables, scratch-dir paths; '
